@@ -1,6 +1,7 @@
 (** C03 — every value in a returned solution (complete or partial) is a fixed point of its line definition. *)
 From Coq Require Import ZArith NArith List Bool.
 From HV Require Import Solver SolverThms SolverExamples.
+From HV Require Forms StoreMono.
 Import ListNotations.
 
 Theorem C03_solution_fixed_point :
@@ -17,5 +18,14 @@ Example C03_nonvacuous :
   end = true.
 Proof. vm_compute. reflexivity. Qed.
 
+(* Layer B (the regenerated line bodies): what a line yielded when it was attempted is what its definition yields on every later,
+   larger store - more solved lines, more inputs, more participating forms - so no stored value is stale with respect to the final store *)
+Theorem C03_value_survives_larger_store :
+  forall (c c':Forms.ctx) fuel (l:Forms.line) v, StoreMono.ctx_le c c' ->
+  Forms.line_value c fuel l = Forms.RVal v -> Forms.line_value c' fuel l = Forms.RVal v.
+Proof. exact StoreMono.value_survives. Qed.
+
+Goal True. idtac "@@PA C03_value_survives_larger_store". Abort.
+Print Assumptions C03_value_survives_larger_store.
 Goal True. idtac "@@PA C03_solution_fixed_point". Abort.
 Print Assumptions C03_solution_fixed_point.
